@@ -219,6 +219,23 @@ pub fn judge(p: &Program, a: &Ans, index: usize, family: &str, viols: &mut Vec<V
             ));
         }
     }
+    // `is_any_except(other)`: the result is an unconstrained-looking variable that a reported
+    // disequality keeps apart from `other`, whichever side of the stored pair it is on
+    for i in 0..a.terms.len() {
+        for j in 0..a.terms.len() {
+            if i == j || !matches!(a.terms[i], T::A(_)) || !matches!(a.terms[j], T::A(_)) || a.terms[i] == a.terms[j] {
+                continue;
+            }
+            let expected = a.per_var[i].iter().any(|c| c.iter().any(|(l, r)| (*l == a.terms[i] && *r == a.terms[j]) || (*l == a.terms[j] && *r == a.terms[i])));
+            let got = a.any_except.contains(&(i, j));
+            if expected != got {
+                viols.push(mk(
+                    "is-any-except",
+                    format!("answer {}: {}.is_any_except({}) is {} but its constraints {} a pair keeping the two apart", a, var_name(i as u32), var_name(j as u32), got, if expected { "contain" } else { "do not contain" }),
+                ));
+            }
+        }
+    }
     has_cons
 }
 
